@@ -1,0 +1,158 @@
+//go:build verif
+// +build verif
+
+package netpoll
+
+// Contracts for the stream adapters (nocopy_readwriter.go). Comment-only, build tag verif.
+// They are verified modularly over the LinkBuffer contracts (callee contract, not body).
+
+// adapter invariant: the private buffer is well formed and has nothing pending between calls
+//@ pred zcrok(r *zcReader) = r.r != nil && r.buf != nil && wf(r.buf) && r.buf.mallocSize == 0
+//@ pred zcwok(w *zcWriter) = w.w != nil && w.buf != nil && wf(w.buf)
+
+//@ func (*zcReader).fill
+//@   property C16
+//@   requires zcrok(r)
+//@   ensures zcrok(r) && rpos(r.buf) == old(rpos(r.buf)) && r.buf.length >= old(r.buf.length) && fpos(r.buf) - old(fpos(r.buf)) == r.buf.length - old(r.buf.length)
+//@   ensures err == nil && old(r.buf.length) < n ==> true
+//@   modifies r.buf.mallocSize, r.buf.write, r.buf.flush, r.buf.length, linkBufferNode.next, linkBufferNode.malloc, linkBufferNode.buf, linkBufferNode.refer, linkBufferNode.own, linkBufferNode.ord, linkBufferNode.sp, mem, pool, blknode, cacheown, cacheidx
+//@   loop 1 invariant zcrok(r) && rpos(r.buf) == old(rpos(r.buf)) && r.buf.length >= old(r.buf.length) && fpos(r.buf) - old(fpos(r.buf)) == r.buf.length - old(r.buf.length) && 0 <= i
+//@   loop 1 invariant forall m *linkBufferNode :: wasalloc(m) && old(m.own) != r.buf ==> samenode(m)
+//@   loop 1 invariant forall m *linkBufferNode :: m != nil && m.own != old(m.own) ==> m.own == r.buf || m.own == nil
+//@   loop 1 invariant samepool()
+//@   loop 1 decreases 16 - i
+
+//@ func (*zcReader).waitRead
+//@   property C16
+//@   requires zcrok(r)
+//@   ensures zcrok(r) && rpos(r.buf) == old(rpos(r.buf)) && r.buf.length >= old(r.buf.length) && fpos(r.buf) - old(fpos(r.buf)) == r.buf.length - old(r.buf.length)
+//@   ensures err == nil ==> r.buf.length >= n
+//@   modifies r.buf.mallocSize, r.buf.write, r.buf.flush, r.buf.length, linkBufferNode.next, linkBufferNode.malloc, linkBufferNode.buf, linkBufferNode.refer, linkBufferNode.own, linkBufferNode.ord, linkBufferNode.sp, mem, pool, blknode, cacheown, cacheidx
+//@   loop 1 invariant zcrok(r) && rpos(r.buf) == old(rpos(r.buf)) && r.buf.length >= old(r.buf.length) && fpos(r.buf) - old(fpos(r.buf)) == r.buf.length - old(r.buf.length)
+
+//@ func (*zcReader).Next
+//@   property C16
+//@   requires zcrok(r)
+//@   ensures zcrok(r) && (err == nil && n > 0 ==> len(p) == n && rpos(r.buf) == old(rpos(r.buf)) + n)
+//@   ensures err != nil ==> rpos(r.buf) == old(rpos(r.buf))
+//@   modifies anything
+//@
+//@ func (*zcReader).Skip
+//@   property C16
+//@   requires zcrok(r)
+//@   ensures zcrok(r) && (err == nil && n > 0 ==> rpos(r.buf) == old(rpos(r.buf)) + n)
+//@   ensures err != nil ==> rpos(r.buf) == old(rpos(r.buf))
+//@   modifies anything
+//@
+//@ func (*zcReader).Peek
+//@   property C16
+//@   requires zcrok(r)
+//@   ensures zcrok(r) && rpos(r.buf) == old(rpos(r.buf)) && (err == nil && n > 0 ==> len(buf) == n)
+//@   modifies anything
+//@
+//@ func (*zcReader).ReadBinary
+//@   property C16
+//@   requires zcrok(r)
+//@   ensures zcrok(r) && (err == nil && n > 0 ==> len(p) == n && rpos(r.buf) == old(rpos(r.buf)) + n)
+//@   ensures err != nil ==> rpos(r.buf) == old(rpos(r.buf))
+//@   modifies anything
+//@
+//@ func (*zcReader).ReadString
+//@   property C16
+//@   requires zcrok(r)
+//@   ensures zcrok(r) && (err == nil && n > 0 ==> len(s) == n && rpos(r.buf) == old(rpos(r.buf)) + n)
+//@   ensures err != nil ==> rpos(r.buf) == old(rpos(r.buf))
+//@   modifies anything
+//@
+//@ func (*zcReader).ReadByte
+//@   property C16
+//@   requires zcrok(r)
+//@   ensures zcrok(r) && (err == nil ==> rpos(r.buf) == old(rpos(r.buf)) + 1)
+//@   ensures err != nil ==> rpos(r.buf) == old(rpos(r.buf))
+//@   modifies anything
+//@
+//@ func (*zcReader).Release
+//@   property C16
+//@   requires zcrok(r)
+//@   ensures zcrok(r) && rpos(r.buf) == old(rpos(r.buf)) && r.buf.length == old(r.buf.length)
+//@   modifies anything
+//@
+//@ func (*zcReader).Len
+//@   property C16
+//@   requires r.buf != nil
+//@   ensures length == r.buf.length
+
+//@ func (*zcWriter).Flush
+//@   property C16
+//@   requires zcwok(w)
+//@   ensures zcwok(w) && w.buf.mallocSize == 0
+//@   ensures fpos(w.buf) == old(mpos(w.buf)) && rpos(w.buf) >= old(rpos(w.buf)) && rpos(w.buf) <= fpos(w.buf)
+//@   modifies anything
+//@
+//@ func (*zcWriter).Malloc
+//@   property C16
+//@   requires zcwok(w)
+//@   ensures zcwok(w) && (n > 0 ==> err == nil && len(buf) == n && w.buf.mallocSize == old(w.buf.mallocSize) + n && rpos(w.buf) == old(rpos(w.buf)) && fpos(w.buf) == old(fpos(w.buf)))
+//@   modifies anything
+//@
+//@ func (*zcWriter).WriteBinary
+//@   property C16
+//@   requires zcwok(w)
+//@   ensures zcwok(w) && n == len(b) && err == nil && w.buf.mallocSize == old(w.buf.mallocSize) + len(b) && rpos(w.buf) == old(rpos(w.buf)) && fpos(w.buf) == old(fpos(w.buf))
+//@   modifies anything
+//@
+//@ func (*zcWriter).WriteString
+//@   property C16
+//@   requires zcwok(w)
+//@   ensures zcwok(w) && n == len(s) && err == nil && w.buf.mallocSize == old(w.buf.mallocSize) + len(s) && rpos(w.buf) == old(rpos(w.buf)) && fpos(w.buf) == old(fpos(w.buf))
+//@   modifies anything
+//@
+//@ func (*zcWriter).WriteByte
+//@   property C16
+//@   requires zcwok(w)
+//@   ensures zcwok(w) && err == nil && w.buf.mallocSize == old(w.buf.mallocSize) + 1 && rpos(w.buf) == old(rpos(w.buf)) && fpos(w.buf) == old(fpos(w.buf))
+//@   modifies anything
+//@
+//@ func (*zcWriter).MallocAck
+//@   property C16
+//@   requires zcwok(w) && n <= w.buf.mallocSize
+//@   ensures zcwok(w) && (n >= 0 ==> err == nil && w.buf.mallocSize == n && rpos(w.buf) == old(rpos(w.buf)) && fpos(w.buf) == old(fpos(w.buf)))
+//@   modifies anything
+//@
+//@ func (*zcWriter).MallocLen
+//@   property C16
+//@   requires w.buf != nil
+//@   ensures length == w.buf.mallocSize
+
+// ---- io adapters over any Reader / Writer: assumed contracts of the wrapped interface ----
+//@ iface Reader.Len
+//@   results length
+//@   ensures length >= 0
+//@ iface Reader.Next
+//@   params n
+//@   results p err
+//@   note a conforming Reader returns exactly n bytes or an error
+//@   ensures err == nil ==> len(p) == n
+//@ iface Reader.Release
+//@   results err
+//@ iface Writer.Malloc
+//@   params n
+//@   results buf err
+//@   note a conforming Writer returns exactly n bytes or an error
+//@   ensures err == nil ==> len(buf) == n
+//@ iface Writer.Flush
+//@   results err
+
+//@ func (*ioReader).Read
+//@   property C16
+//@   requires r.r != nil
+//@   ensures err == nil ==> 0 <= n && n <= len(p)
+//@   ensures len(p) == 0 ==> n == 0 && err == nil
+//@   modifies mem
+//@
+//@ func (*ioWriter).Write
+//@   property C16
+//@   requires w.w != nil
+//@   ensures err == nil ==> n == len(p)
+//@   ensures err != nil ==> n == 0
+//@   modifies mem
